@@ -134,7 +134,7 @@ def main(ctx):
     order, why = exec_solver_order()
     ctx.log("exec_solver order: %s (%s)" % (order, why))
     caps = set()
-    for sh_ in run_mode(ctx, h, d, "pipe", 1, shards=4, extra=extra, drv_modes=[("pipe", "--order " + order)], timeout=120):
+    for sh_ in run_mode(ctx, h, d, "pipe", 1, shards=4, extra=extra, drv_modes=[("pipe", "--order " + order)], timeout=600):
         if crashed(sh_):
             continue
         impl, models, path = sh_
